@@ -60,6 +60,11 @@ def make_items(rng, nmax=8, big=False):
 
 
 def item_payload(it):
+    if it.get('fill'):
+        # compact form of a large payload: n bytes of a repeating pattern
+        n, pat = it['fill']
+        pat = bytes.fromhex(pat)
+        return (pat * (n // len(pat) + 1))[:n]
     if it['kind'] == 'text':
         return it['text'].encode('utf-8')
     return bytes.fromhex(it['hex'])
